@@ -484,6 +484,45 @@ func blsAggregation() {
 			mm.addS(id+" verdict", vS(ok, e))
 		}
 	}
+	// LONG lists of distinct (key, message) couples: the C layer feeds the pairing in fixed-size batches
+	// whose size constants differ between build configurations (lengths around the multiples of 8 / 16)
+	{
+		const maxLong = 65
+		lsk := make([]crypto.PrivateKey, maxLong)
+		lpk := make([]crypto.PublicKey, maxLong)
+		lms := make([][]byte, maxLong)
+		lsg := make([]crypto.Signature, maxLong)
+		lh := crypto.NewExpandMsgXOFKMAC128("c20-many-long")
+		for i := range lsk {
+			lsk[i], _ = crypto.GeneratePrivateKey(crypto.BLSBLS12381, detBytes("bls-many-long-key", i, 32))
+			lpk[i] = lsk[i].PublicKey()
+			lms[i] = detBytes("bls-many-long-msg", i, 5+i%40)
+			lsg[i], _ = lsk[i].Sign(lms[i], lh)
+		}
+		for _, n := range []int{7, 8, 9, 15, 16, 17, 23, 24, 25, 31, 32, 33, 47, 48, 49, 63, 64, 65} {
+			hs := make([]hash.Hasher, n)
+			for i := range hs {
+				hs[i] = lh
+			}
+			as, _ := crypto.AggregateBLSSignatures(lsg[:n])
+			ok, e := crypto.VerifyBLSSignatureManyMessages(lpk[:n], as, lms[:n], hs)
+			mm.addS(fmt.Sprintf("long n=%d distinct couples", n), fmt.Sprintf("aggsig=%x %s", []byte(as), vS(ok, e)))
+			// the last message replaced: false
+			ms2 := append(append([][]byte{}, lms[:n-1]...), []byte("other"))
+			ok, e = crypto.VerifyBLSSignatureManyMessages(lpk[:n], as, ms2, hs)
+			mm.addS(fmt.Sprintf("long n=%d last message replaced", n), vS(ok, e))
+			// half as many distinct messages as keys (the grouping goes by message)
+			ms3 := make([][]byte, n)
+			sg3 := make([]crypto.Signature, n)
+			for i := 0; i < n; i++ {
+				ms3[i] = lms[i/2]
+				sg3[i], _ = lsk[i].Sign(ms3[i], lh)
+			}
+			as3, _ := crypto.AggregateBLSSignatures(sg3)
+			ok, e = crypto.VerifyBLSSignatureManyMessages(lpk[:n], as3, ms3, hs)
+			mm.addS(fmt.Sprintf("long n=%d two keys per message", n), vS(ok, e))
+		}
+	}
 	ok, e = crypto.VerifyBLSSignatureManyMessages(pks[:2], sigs[0], msgs[:1], []hash.Hasher{kmac})
 	mm.addS("length mismatch", vS(ok, e))
 	ok, e = crypto.VerifyBLSSignatureManyMessages(nil, sigs[0], nil, nil)
